@@ -1,10 +1,10 @@
 (* Property C04 -- the lifted IL computes the documented result and flags for every operand value.
-   Statements only; proofs are in Proofs/AluProofs.v, ExecProofs.v, ExecProofs2.v and ExecMemProofs.v.
+   Statements only; proofs are in Proofs/AluProofs.v, ExecProofs.v, ExecProofs2.v, ExecMemProofs.v and ExecAluMemProofs.v.
    Model: Model/IL.v (evaluator) + Model/Lift.v (lifter), tied to the Python code by IL-text and execution
    correspondence on every run; documented semantics: Model/Spec.v (README instruction tables). *)
 From Coq Require Import ZArith NArith List Bool.
 From BE Require Import Model.TableTypes Gen.Tables Model.Regs Model.Decode Model.IL Model.Lift Model.Static Model.Spec
-  Model.Emu Proofs.AluProofs Proofs.ExecProofs Proofs.AccessProofs Proofs.ExecProofs2 Proofs.ExecProofs3 Proofs.ExecMemProofs Proofs.ExecPtrProofs Proofs.ExecStackProofs.
+  Model.Emu Proofs.AluProofs Proofs.ExecProofs Proofs.AccessProofs Proofs.ExecProofs2 Proofs.ExecProofs3 Proofs.ExecMemProofs Proofs.ExecPtrProofs Proofs.ExecStackProofs Proofs.ExecAluMemProofs.
 Import ListNotations.
 Open Scope Z_scope.
 
@@ -115,6 +115,17 @@ Theorem C04_mv_store_imem_exact :
   store_imm_is_spec 204 (fun n k => [OIMem 1 n; OImm8 k]) 3 /\ store_imm_is_spec 205 (fun n k => [OIMem 2 n; OImm16 k]) 4.
 Proof. repeat split; [exact mv_imem_A | exact mv_imem_BA | exact mv_imem_I | exact mv_imem_X | exact mv_imem_imm8 | exact mvw_imem_imm16]. Qed.
 Print Assumptions C04_mv_store_imem_exact.
+
+(* ALU with an internal-memory source: ADD/SUB/ADC/SBC/AND/OR/XOR A,(n), with no prefix and with each of the 15 prefixes, every
+   n, every carry-in, byte memory: A, C and Z (Z only for the logic operations) are exactly the documented function of A, the
+   byte in the cell the prefix's addressing mode names and C; nothing else architectural changes *)
+Theorem C04_alu_A_imem_exact :
+  alu_mem_is_spec 66 /\ alu_mem_is_spec 74 /\ alu_mem_is_spec 82 /\ alu_mem_is_spec 90 /\
+  alu_mem_is_spec 119 /\ alu_mem_is_spec 127 /\ alu_mem_is_spec 111 /\
+  map (fun o => (d_cls (entry_of o), d_ops (entry_of o))) [66; 74; 82; 90; 119; 127; 111]%N =
+  map (fun c => (c, [PReg RA 1; PIMem 1])) [I_ADD; I_SUB; I_ADC; I_SBC; I_AND; I_OR; I_XOR].
+Proof. split; [|split; [|split; [|split; [|split; [|split; [|split; [|exact alu_mem_opcodes_check]]]]]]]; [exact add_A_imem | exact sub_A_imem | exact adc_A_imem | exact sbc_A_imem | exact and_A_imem | exact or_A_imem | exact xor_A_imem]. Qed.
+Print Assumptions C04_alu_A_imem_exact.
 
 (* register-indirect forms: MV A,[r] / [r++] / [--r] / [r+n] / [r-n] and the stores MV [..],A, for r = X, Y, U, S and every
    offset byte: the byte read / written is the one the operand denotes, the pointer is updated as documented (post-increment
